@@ -108,6 +108,14 @@ func (eval RingPackingEvaluator) extract(ct *Ciphertext, idx map[int]bool, naive
 	// degree until the minimum ring degre is reached
 	tmpCts := make(map[int]*Ciphertext)
 	tmpCts[0] = ct.CopyNew()
+
+	// The extraction operates in the NTT domain (the extracted ciphertexts are returned in the NTT domain).
+	if !tmpCts[0].IsNTT {
+		rN := eval.Parameters[logNMax].GetRLWEParameters().RingQ().AtLevel(level)
+		rN.NTT(tmpCts[0].Value[0], tmpCts[0].Value[0])
+		rN.NTT(tmpCts[0].Value[1], tmpCts[0].Value[1])
+		tmpCts[0].IsNTT = true
+	}
 	for i := 0; i < logNFactor; i++ {
 		t := 1 << i
 
@@ -221,12 +229,25 @@ func (eval RingPackingEvaluator) Split(ctN, ctEvenNHalf, ctOddNHalf *Ciphertext)
 	}
 
 	r := eval.Parameters[LogN].GetRLWEParameters().RingQ().AtLevel(ctN.Level())
+	rNHalf := eval.Parameters[LogN-1].GetRLWEParameters().RingQ().AtLevel(ctN.Level())
+
+	// The ring-degree switch and the multiplication by X^{-1} below operate in the NTT domain:
+	// a coefficient-domain input is converted here and the outputs are converted back.
+	if !ctN.IsNTT {
+		r.NTT(ctTmp.Value[0], ctTmp.Value[0])
+		r.NTT(ctTmp.Value[1], ctTmp.Value[1])
+	}
 
 	// Maps to smaller ring degree X -> Y = X^{2}
 
 	*ctEvenNHalf.MetaData = *ctN.MetaData
 	SwitchCiphertextRingDegreeNTT(ctTmp.El(), r, ctEvenNHalf.El())
+	*ctEvenNHalf.MetaData = *ctN.MetaData
 	ctEvenNHalf.LogDimensions.Cols--
+	if !ctN.IsNTT {
+		rNHalf.INTT(ctEvenNHalf.Value[0], ctEvenNHalf.Value[0])
+		rNHalf.INTT(ctEvenNHalf.Value[1], ctEvenNHalf.Value[1])
+	}
 
 	// Maps to smaller ring degree X -> Y = X^{2}
 	if ctOddNHalf != nil {
@@ -239,7 +260,12 @@ func (eval RingPackingEvaluator) Split(ctN, ctEvenNHalf, ctOddNHalf *Ciphertext)
 		r.MulCoeffsMontgomery(ctTmp.Value[0], eval.XInvPow2NTT[LogN][0], ctTmp.Value[0])
 		r.MulCoeffsMontgomery(ctTmp.Value[1], eval.XInvPow2NTT[LogN][0], ctTmp.Value[1])
 		SwitchCiphertextRingDegreeNTT(ctTmp.El(), r, ctOddNHalf.El())
+		*ctOddNHalf.MetaData = *ctN.MetaData
 		ctOddNHalf.LogDimensions.Cols--
+		if !ctN.IsNTT {
+			rNHalf.INTT(ctOddNHalf.Value[0], ctOddNHalf.Value[0])
+			rNHalf.INTT(ctOddNHalf.Value[1], ctOddNHalf.Value[1])
+		}
 	}
 
 	return
@@ -432,6 +458,23 @@ func (eval RingPackingEvaluator) Merge(ctEvenNHalf, ctOddNHalf, ctN *Ciphertext)
 
 	ctTmp := NewCiphertext(eval.Parameters[LogN], 1, ctN.Level())
 
+	// The ring-degree switch and the multiplication by X below operate in the NTT domain:
+	// coefficient-domain inputs are converted on copies and the output is converted back.
+	inputIsNTT := ctEvenNHalf.IsNTT
+	if !inputIsNTT {
+		rNHalf := eval.Parameters[LogN-1].GetRLWEParameters().RingQ().AtLevel(ctN.Level())
+		ctEvenNHalf = ctEvenNHalf.CopyNew()
+		rNHalf.NTT(ctEvenNHalf.Value[0], ctEvenNHalf.Value[0])
+		rNHalf.NTT(ctEvenNHalf.Value[1], ctEvenNHalf.Value[1])
+		ctEvenNHalf.IsNTT = true
+		if ctOddNHalf != nil {
+			ctOddNHalf = ctOddNHalf.CopyNew()
+			rNHalf.NTT(ctOddNHalf.Value[0], ctOddNHalf.Value[0])
+			rNHalf.NTT(ctOddNHalf.Value[1], ctOddNHalf.Value[1])
+			ctOddNHalf.IsNTT = true
+		}
+	}
+
 	*ctN.MetaData = *ctEvenNHalf.MetaData
 	SwitchCiphertextRingDegreeNTT(ctEvenNHalf.El(), r, ctN.El())
 
@@ -444,6 +487,12 @@ func (eval RingPackingEvaluator) Merge(ctEvenNHalf, ctOddNHalf, ctN *Ciphertext)
 	// SkNHalf -> SkN
 	if err = evalN.ApplyEvaluationKey(ctN, evkNHalfToN, ctN); err != nil {
 		return fmt.Errorf("evalN.ApplyEvaluationKey(ctN, evkNToNHalf, ctN): %w", err)
+	}
+
+	if !inputIsNTT {
+		r.INTT(ctN.Value[0], ctN.Value[0])
+		r.INTT(ctN.Value[1], ctN.Value[1])
+		ctN.IsNTT = false
 	}
 
 	ctN.LogDimensions.Cols++
